@@ -2,6 +2,8 @@ package main
 
 import (
 	"fmt"
+
+	"github.com/Basekick-Labs/msgpack/v6"
 	"os"
 	"sort"
 	"strings"
@@ -302,7 +304,7 @@ func diffKind(ref, got StoredRow) string {
 }
 
 func checkC05(c *vlib.Ctx) {
-	c.Rule("histories of 3-8 single-measurement write requests (line protocol over the three endpoints = row-format WAL entries; MessagePack columnar = raw-envelope entries; MessagePack row) over 3 databases, timestamps now / before 1970 / 1970-01-01 / before 1970-04-27, columns named database, measurement, m, _database, _measurement; each history is run crash-free on a real arc process (reference) and again with a SIGKILL at an enumerated point: after the last acknowledgement, at the n-th wal.entry.before_write / after_write, at ingest.flush.before_write / after_write, and optionally a second kill during the next startup at wal.recover.after_replay / wal.recover.after_delete / main.recovery.done; then restart, flush, read the Parquet files with an independent reader. Oracle: every row of a request that was acknowledged AND whose WAL entry was observed in the file before the kill (hook trace) is stored, in the same database/measurement, with the same columns, values and timestamp as in the crash-free run. non-trivial = distinct (history, crash plan) pairs")
+	c.Rule("(A) histories of 3-8 single-measurement write requests (line protocol over the three endpoints = row-format WAL entries; MessagePack columnar = raw-envelope entries; MessagePack row) over 3 databases, timestamps now / before 1970 / 1970-01-01 / before 1970-04-27, columns named database, measurement, m, _database, _measurement; each history is run crash-free on a real arc process (reference) and again with a SIGKILL at an enumerated point: after the last acknowledgement, at the n-th wal.entry.before_write / after_write, at ingest.flush.before_write / after_write, and optionally a second kill during the next startup at wal.recover.after_replay / wal.recover.after_delete / main.recovery.done; then restart, flush, read the Parquet files with an independent reader. Oracle: every row of a request that was acknowledged AND whose WAL entry was observed in the file before the kill (hook trace) is stored, in the same database/measurement, with the same columns, values and timestamp as in the crash-free run. (B) concurrent family: 8 clients write 60 requests each to 8 DIFFERENT databases at the same time (MessagePack columnar, optionally mixed with line protocol), nothing is flushed, the process is killed once every acknowledged request's WAL entry was observed in the file, restarted, and every acknowledged row must be stored exactly once under the database it was written to. non-trivial = distinct (history, crash plan) pairs and concurrent runs")
 	c.Assume("crash = process death (SIGKILL); data written to the WAL file is considered to have reached it (no power-loss model)")
 	c.Assume("the k-th accepted request owns the k-th WAL entry: requests are sent one at a time and each carries one measurement")
 	c.Assume("duplicates of rows that had already been flushed before the kill are counted, not reported: the property requires the rows to be present and unchanged")
@@ -387,7 +389,139 @@ func checkC05(c *vlib.Ctx) {
 			runC05Case(c, cs, refOf(cs))
 		}(cs)
 	}
+	for v := 0; v < c.N(2, 10); v++ {
+		wg.Add(1)
+		sem <- struct{}{}
+		go func(v int) {
+			defer wg.Done()
+			defer func() { <-sem }()
+			runC05Concurrent(c, v)
+		}(v)
+	}
 	wg.Wait()
 	c.Extra("crash_plans", len(cases))
 	c.Floor(10)
+}
+
+// ---- concurrent multi-database family ----
+//
+// Several clients write to DIFFERENT databases at the same time (MessagePack columnar
+// = raw-envelope WAL entries, optionally line protocol), nothing is flushed before
+// the kill, so every acknowledged row has to come back from the WAL, into the
+// database it was written to.
+func runC05Concurrent(c *vlib.Ctx, variant int) {
+	a := NewArc(ArcCfg{MaxBufferSize: 1000000, MaxBufferAgeMS: 600000, WAL: true})
+	defer a.Remove()
+	if ready, _ := a.Start(); !ready {
+		c.Inconclusive("instance did not become ready")
+		return
+	}
+	const clients = 8
+	perClient := 60
+	type truth struct {
+		dir string
+		v   float64
+	}
+	var mu sync.Mutex
+	want := map[int64]truth{}
+	ackedReqs := 0
+	var wg sync.WaitGroup
+	for cl := 0; cl < clients; cl++ {
+		wg.Add(1)
+		go func(cl int) {
+			defer wg.Done()
+			db := fmt.Sprintf("tenant%d", cl)
+			for i := 0; i < perClient; i++ {
+				rid := int64(variant+1)*10_000_000 + int64(cl)*100_000 + int64(i)
+				v := float64(cl*1000 + i)
+				var q Req
+				if variant%2 == 1 && i%3 == 0 {
+					q = Req{Path: "/write?db=" + db + "&precision=s", Body: []byte(fmt.Sprintf("cc,host=h rid=%di,v=%g %d\n", rid, v, 1_700_000_000+i))}
+				} else {
+					b, _ := msgpack.Marshal(map[string]interface{}{"m": "cc", "columns": map[string]interface{}{
+						"time": []interface{}{int64(1_700_000_000+i) * 1_000_000}, "rid": []interface{}{rid}, "v": []interface{}{v}, "host": []interface{}{"h"}}})
+					q = Req{Path: "/api/v1/write/msgpack", Hdr: map[string]string{"x-arc-database": db}, Body: b}
+				}
+				code, _, err := a.Post(q.Path, q.Hdr, q.Body)
+				if err == nil && code >= 200 && code < 300 {
+					mu.Lock()
+					want[rid] = truth{dir: db + "/cc", v: v}
+					ackedReqs++
+					mu.Unlock()
+				}
+			}
+		}(cl)
+	}
+	wg.Wait()
+	// let the asynchronous WAL writer catch up, then read how many entries reached the file
+	walWritten := 0
+	for w := 0; w < 100; w++ {
+		walWritten = 0
+		for _, e := range a.Events() {
+			if e["ev"] == "wal.entry.written" {
+				walWritten++
+			}
+		}
+		if walWritten >= ackedReqs {
+			break
+		}
+		time.Sleep(50 * time.Millisecond)
+	}
+	a.Kill()
+	c.Count("kills", 1)
+	c.Count("concurrent_requests_acked", int64(ackedReqs))
+	c.Count("wal_entries_in_file_at_kill", int64(walWritten))
+	if walWritten < ackedReqs {
+		c.Inconclusive(fmt.Sprintf("concurrent family: only %d of %d acknowledged requests had reached the WAL file at the kill; skipped", walWritten, ackedReqs))
+		return
+	}
+	if ready, _ := a.Start(); !ready {
+		c.Violation("server does not start after crash: concurrent writers", map[string]any{"log": a.LogTail(a.runs, 30)})
+		return
+	}
+	a.Post("/api/v1/write/line-protocol/flush", nil, nil)
+	var ids []int64
+	for id := range want {
+		ids = append(ids, id)
+	}
+	st, _ := waitRows(a.DataRoot(), ids, 25*time.Second)
+	time.Sleep(400 * time.Millisecond)
+	if st2, _, err := readStore(a.DataRoot()); err == nil {
+		st = st2
+	}
+	a.Kill()
+	c.Eval()
+	c.Nontrivial(fmt.Sprintf("concurrent/%d/%d", variant, ackedReqs))
+	lost, misrouted, dup := 0, 0, 0
+	var example string
+	for id, t := range want {
+		rows := st[id]
+		c.Count("rows_checked", 1)
+		switch {
+		case len(rows) == 0:
+			lost++
+			if example == "" {
+				example = fmt.Sprintf("rid %d (written to %s) is missing", id, t.dir)
+			}
+		case len(rows) > 1:
+			dup++
+		}
+		for _, r := range rows {
+			if r.Dir != t.dir {
+				misrouted++
+				example = fmt.Sprintf("rid %d written to %s recovered under %s", id, t.dir, r.Dir)
+			}
+		}
+	}
+	d := map[string]any{"variant": variant, "clients": clients, "requests_acked": ackedReqs, "wal_entries_in_file": walWritten, "lost": lost, "misrouted": misrouted, "duplicated": dup, "example": example}
+	if misrouted > 0 {
+		c.Violation("concurrent writers to different databases: recovered rows routed to another database", d)
+	}
+	if lost > 0 {
+		c.Violation("concurrent writers to different databases: acknowledged rows with WAL entries on disk lost after crash", d)
+	}
+	if dup > 0 {
+		c.Violation("concurrent writers to different databases: row stored more than once although nothing had been flushed before the kill", d)
+	}
+	c.Sample(d)
 }
